@@ -107,6 +107,10 @@ def run(prog, R):
             r = rd.get(pre)
             got = rvs.get(r[1].rsplit("::", 1)[1]) if r is not None and r[0] == "adt" else None
             R.ob("C10.2-radix-prefix", pre, got == base, prog.body(TE + "IntNumber::radix").at, f"{pre!r} => radix {got} (expected {base})")
+        # ... and nothing else is a radix prefix: a spelling that is not in the specification's table (`00`, say)
+        # must take the default arm, or a decimal literal written that way is read in another base
+        extra_ = sorted(k for k in rd if k not in spec["radix"])
+        R.ob("C10.2-radix-prefix", "no-other-prefix", not extra_, prog.body(TE + "IntNumber::radix").at, f"prefixes compared: {sorted(rd)}" if not extra_ else f"IntNumber::radix also treats {extra_} as a radix prefix: the specification has only {sorted(spec['radix'])}; a decimal literal that begins with these characters is converted in the wrong base")
         dflt = {rvs.get(r[1].rsplit("::", 1)[1]) for r in other if r[0] == "adt"}
         R.ob("C10.2-radix-prefix", "default-decimal", dflt == {10}, "", f"no prefix => {dflt}")
         R.ob("C10.2-radix-prefix", "Radix discriminants", rvs == {"Binary": 2, "Octal": 8, "Decimal": 10, "Hexadecimal": 16}, "", str(rvs))
